@@ -930,6 +930,12 @@ class Sim:
                     rec.cls("op:excl-via-apply_manual_indices")
                     ds.filter.apply_manual_indices(
                         ds, np.array(sorted(lv.M), dtype=np.int64))
+                    # this entry point records the measurement events at once: nothing
+                    # of the level's exclusions is "typed but not yet read" any more
+                    lv.Mc = set(lv.M)
+                    lv.uncommitted = False
+                    self.mark_edit(L)
+                    return
                 else:
                     for j in js:
                         man[j] = False
